@@ -257,6 +257,11 @@ CLEN_PARTS = {'C01': ('sincos',), 'C02': ('sincos',), 'C03': ('sincos', 'dst'), 
 
 def _clen(ctx, prop):
     from .rules import clenshaw
+    if prop in ('C06', 'C04'):
+        from .rules import tmseries
+        r, n = tmseries.rule_TMC(ctx)
+        r.floor('paths of TransverseMercator::Forward/Reverse through the series', n, 30)
+        return [r]
     if prop not in CLEN_PARTS:
         return []
     r, n = clenshaw.rule_CLEN(ctx, CLEN_PARTS[prop])
